@@ -11,7 +11,7 @@ from vpkit.checks.c29 import pieces
 
 ID = "C28"
 N = {"quick": 170, "thorough": 4000}
-BUDGET = {"quick": 240.0, "thorough": 1500.0}
+BUDGET = {"quick": 240.0, "thorough": 700.0}
 RULE = ("case = (simulated or inferred input whose sites leave flanks and deserts, optionally unsimplified "
         "or with mutations above roots; minimum_gap 1/10/100/1e6/None, erase_flanks, user delete_intervals, "
         "split_disjoint, filter flags); distinct by (topology hash, options); non-trivial = some topology "
